@@ -33,6 +33,9 @@ Invariants (all C12)
 - out-of-range-tweak-refused: with the TapTweak digest drawn from
   [n, 2^256) -- the hash is the seam; no input reaches that clause of BIP341
   otherwise -- every producer and the checker refuse.
+- answers-follow-the-tree-as-it-is: a leaf replaced IN PLACE in the list the
+  caller handed over (a third of the runs): output key and control block
+  are those of a deep copy of the tree as it is now.
 Probe only (never asserted): a tree deeper than the limit being refused by
 the producer.
 """
@@ -229,6 +232,8 @@ def run(ctx: Ctx) -> None:
                         P12, "altered-spend-rejected-by-engine", verdict.startswith("refused"),
                         lambda: f"{target} altered on a depth-{depths[n]} script-path spend (leaf version {version:#x}): verify_input {verdict}", site=target,
                     )
+    if ch.draw(3, "edit-in-place?") == 0:
+        _edited_in_place(ctx, internal, tree, pool)
     if faulty:
         _refusals(ctx, internal, d_int, tree, q, leaves)
     # beyond the limit: whatever the producer does is logged, never judged
@@ -239,6 +244,42 @@ def run(ctx: Ctx) -> None:
             ctx.probe("depth-129-answered")
         except LIB:
             ctx.probe("depth-129-refused")
+
+
+def _edited_in_place(ctx: Ctx, internal: Any, tree: Any, pool: list[Any]) -> None:
+    """The caller edits the tree it handed over -- the same list object, one leaf replaced -- and asks again: the answers
+    are those of the tree as it is now (a deep copy of it says what they are), not of the tree as it was."""
+    from copy import deepcopy  # noqa: PLC0415
+
+    ch = ctx.ch
+    holders: list[Any] = []
+
+    def walk(t: Any) -> None:
+        if len(t) == 1:
+            holders.append(t)
+        else:
+            walk(t[0])
+            walk(t[1])
+
+    walk(tree)
+    n = ch.draw(len(holders), "edit.leaf")
+    was = holders[n][0]
+    new = _leaf(ch, pool)
+    if new == was:
+        return
+    holders[n][0] = new
+    ctx.fault("tree-edited-in-place")
+    try:
+        with ctx.must_succeed(P12, "answers-follow-the-tree-as-it-is", "output_pubkey"):
+            now = taproot.output_pubkey(internal, tree)
+            fresh = taproot.output_pubkey(internal, deepcopy(tree))
+        ctx.check(P12, "answers-follow-the-tree-as-it-is", now == fresh, lambda: f"leaf {n} replaced in place: output key {now[0].hex()}, a copy of the same tree gives {fresh[0].hex()}", site="output_pubkey")
+        with ctx.must_succeed(P12, "answers-follow-the-tree-as-it-is", "input_script_sig"):
+            cmds, control = taproot.input_script_sig(internal, tree, n)
+            ok = taproot.check_output_pubkey(fresh[0], taproot.serialize(cmds), control)
+        ctx.check(P12, "answers-follow-the-tree-as-it-is", ok is True and taproot.serialize(cmds) == taproot.serialize(new[1]), lambda: f"leaf {n} replaced in place: the control block for it does not prove the new leaf against {fresh[0].hex()}", site="input_script_sig")
+    finally:
+        holders[n][0] = was
 
 
 _FIELD = 2**256 - 2**32 - 977
